@@ -29,5 +29,25 @@ claim("C05", "sweep",
       "All 2^24 bus and 2^24 pak addresses x 4 mappers are checked for: unmapped error identity and zero result, exactly-one class window, rejection of exactly $F00000-$F4FFFF, the console-owned regions common to all mappers, whole-8-KiB-page structure with preserved byte order in both directions, and agreement of class and linear position with a per-mapper region table transcribed as data from the documented layout. Complete enumeration of a finite domain.",
       "Trusted: the hand-transcribed region tables (they agreed with the unchanged tree on all 4 x 2^24 addresses, which cross-validates the transcription).",
       "DESIGN.md section 3 C05")
+claim("C09", "rapid-prop",
+      "property-based round-trip + independent offset table + single-byte metamorphic relation (rapid)",
+      "Random 80-byte headers (versions 1/2/3 each forced about a third of the time) inside images of 1-8 banks are parsed and written back (image must be byte-identical), serialised and re-parsed (DeepEqual), compared field by field (via reflection by field name) with a hand-typed table of documented cartridge addresses, and perturbed in one drawn byte (exactly the covering field may change); all 80 byte positions are also flipped systematically on one header per version. Sampling of a 2^640 space: strong against layout/order/endianness slips, blind to a defect tied to one specific byte value.",
+      "Trusted: the offset table in the harness (from the rom:\"FFxx\" tags and the SNES header documentation). Image bytes outside the header come from a fixed pseudo-random base image.",
+      "DESIGN.md section 3 C09")
+claim("C10", "rapid-prop",
+      "model-based stateful property test (rapid) against a reference window model with a known-finding quirk variant",
+      "Histories of writes (lengths solved to end 2/1 before, at, and 1-3 beyond the bank end), writer re-opens and reads with varied buffer sizes are run against ROM.BusWriter/BusReader and a reference window model; the whole image is compared after every call. The listed known finding (window one byte short) is accepted only when the implementation equals the reference with the window shortened by exactly one byte.",
+      "Trusted: the reference model (60 lines). The writer's position after a failed write is treated as unspecified. Known finding rom-window-last-byte is matched by the quirk variant only.",
+      "DESIGN.md section 3 C10")
+claim("C11", "sweep",
+      "exhaustive differential enumeration: emulator bus versus lorom mapper on seed-defined array contents",
+      "All 2^24 bus addresses are read and written through emulator.System's bus; inside the console's documented layout the byte read / the cell changed must be the one lorom.BusAddressToPak designates, outside it any array change must coincide with the mapper's cell; ROM/WRAM/SRAM are compared with golden copies after every bank (1 content seed quick, 4 thorough). Complete over addresses; contents are sampled.",
+      "Trusted: the console layout T taken from the property statement; array contents are a pure function of the seed.",
+      "DESIGN.md section 3 C11")
+claim("C13", "rapid-prop",
+      "model-based stateful property test (rapid): owner-per-block model, recording memories, sentinel/canary dump buffers",
+      "Random op lists (aligned Attach over overlapping/abutting/nested ranges, misaligned Attach, reads, writes, EaDump at any alignment across memories and holes) run on a fresh Bus with recording stubs; every access must reach exactly the model's owner with the full address, unattached accesses must panic, rejected Attach must not change routing, EaDump must equal byte-wise reads and leave unattached positions and the canary untouched.",
+      "Trusted: the interval model of ownership. Histories are bounded (25 ops quick, 60 thorough) and ranges lie around three anchors.",
+      "DESIGN.md section 3 C13")
 for e in ENGINES:
     e["serves_properties"] = sorted(k for k, v in CLAIMED.items() if v["engine"] == e["name"])
